@@ -207,7 +207,7 @@ def monitor(sess, extra):
             ret = op.ret
             if int(ret.get("okc", -1)) != n or int(ret.get("errc", -1)) != 0:
                 r.violation("C04:burst_refusal", "burst of %d seals from sequence %d: %s succeeded, first error %s" % (n, m.n, ret.get("okc"), ret.get("firsterr")), sess, op)
-            if int(ret.get("dups", 0)) != 0:
+            if ret.get("dups", "0") not in ("0", "-"):
                 r.violation("C04:nonce_reuse", "burst of %d seals with identical (key, pt, aad): %s identical outputs, i.e. repeated nonces (first pair %s)" % (n, ret["dups"], ret.get("firstdup")), sess, op)
             bad = 0
             for l in op.extra:
@@ -215,7 +215,7 @@ def monitor(sess, extra):
                 want = refaead.seal(aead, m.key, nonce(m.bn, m.n + i), op.b["aad"], op.b["pt"])
                 r.counts["evaluations"] += 1
                 r.distinct.add((aead, m.n + i))
-                if cl.unhex(l["full"]) != want:
+                if l["full"] != cl.outenc(want):
                     bad += 1
                     if bad == 1:
                         r.violation("C04:wrong_nonce", "burst message %d is not AEAD(key, base_nonce XOR I2OSP(%d))" % (i, m.n + i), sess, op)
@@ -232,7 +232,36 @@ def monitor(sess, extra):
     return r
 
 
-MONITORS = {"positions": monitor, "exhaustion": monitor, "burst": monitor}
+def build_volume(env, nmsgs, size):
+    """Data volume, not message count: tens of GiB through one context (a per-context byte/block budget
+    would run out long before the sequence number does)."""
+    g = gen.G(env.rnd)
+    cw = cl.CaseW()
+    for i, aead in enumerate(gen.SEAL_AEADS):
+        s = cw.session(0x0020, gen.KDFS[i], aead, sid="v%d" % i)
+        raw_ctx(s, g, aead, 99)
+        s.call("seal_burst", ctx="S", n=nmsgs, pt="@z:00:%d" % size, aad="-", keep=0, log="head:1,tail:1")
+        s.call("seal", ctx="S", api="inplace", pt="00", aad="-")
+    return cw
+
+
+def build_foreign(env):
+    """A small raw-key workload for interpretation on other targets (32-bit, big-endian): positions on both
+    sides of 2^32, every byte of the counter non-zero, the last value."""
+    g = gen.G(env.rnd)
+    cw = cl.CaseW()
+    for i, aead in enumerate(gen.SEAL_AEADS):
+        s = cw.session(0x0020, 1, aead, sid="f%d" % i)
+        raw_ctx(s, g, aead, i)
+        for p in (0, 1, 255, 256, (1 << 32) - 1, 1 << 32, (1 << 32) + 1, 0x0102030405060708, M64 - 1):
+            s.call("set_seq", ctx="S", seq=p)
+            s.call("seal", ctx="S", api="inplace", pt="0011223344", aad="aa")
+            s.call("seal", ctx="S", api="alloc", pt="-", aad="-")
+        s.call("seal", ctx="S", api="inplace", pt="00", aad="-")
+    return cw
+
+
+MONITORS = {"positions": monitor, "exhaustion": monitor, "burst": monitor, "volume": monitor, "foreign": monitor}
 
 
 def run(env):
@@ -243,6 +272,19 @@ def run(env):
         env.require_complete(res, name)
         env.pmap(monitor, res.sessions, workload=name)
         env.extra_cov["driver_wall_s_%s" % name] = round(res.wall, 2)
+    if not env.quick():
+        res = env.drive("volume", build_volume(env, 66000, 1 << 20).text(), timeout=7200)
+        env.require_complete(res, "volume")
+        env.pmap(monitor, res.sessions, workload="volume")
+        env.extra_cov["volume_bytes_per_context"] = 66000 * (1 << 20)
+        ftext = build_foreign(env).text()
+        foreign = {}
+        for target in ("i686-unknown-linux-gnu", "s390x-unknown-linux-gnu"):
+            sessions, note = fw.run_miri(env, "foreign-" + target.split("-")[0], ftext, target=target)
+            foreign[target] = note
+            if sessions is not None:
+                env.pmap(monitor, sessions, workload="foreign", procs=1)
+        env.extra_cov["foreign_targets_under_miri"] = foreign
     env.extra_cov["max_sequence_number_sealed"] = max([d[1] for d in env.distinct if isinstance(d[1], int)] or [0])
     env.exhaustive = False
 
